@@ -101,6 +101,7 @@ package asn1parser
 // ---- header decoding
 
 //@ func ReadTag
+//@   errors_propagated
 //@   props C07
 //@   requires readerOK(reader)
 //@   assigns E.uint8, X.stream, X.spos
@@ -109,6 +110,7 @@ package asn1parser
 //@   ensures pos(reader) >= old(pos(reader))
 
 //@ func PeekTag
+//@   errors_propagated
 //@   props C07
 //@   requires readerOK(reader) && 0 <= offset 
 //@   assigns E.uint8, X.stream
@@ -116,6 +118,7 @@ package asn1parser
 //@   ensures[C06] err == nil ==> *ret == at(reader, offset) && pos(reader) + offset + 1 <= $ssize[sid(reader)]
 
 //@ func ReadUint8
+//@   errors_propagated
 //@   props C07
 //@   requires readerOK(reader)
 //@   assigns E.uint8, X.stream, X.spos
@@ -123,6 +126,7 @@ package asn1parser
 //@   ensures pos(reader) >= old(pos(reader))
 
 //@ func PeekUint8
+//@   errors_propagated
 //@   props C07
 //@   requires readerOK(reader) && 0 <= offset
 //@   assigns E.uint8, X.stream
@@ -130,6 +134,7 @@ package asn1parser
 //@   ensures[C06] err == nil ==> r0 == at(reader, offset)
 
 //@ func ReadExpectedBigInt
+//@   errors_propagated
 //@   props C07
 //@   requires readerOK(reader) && 0 <= sizeOfLength && sizeOfLength <= 15
 //@   assigns E.uint8, X.stream, X.spos
@@ -139,6 +144,7 @@ package asn1parser
 //@   ensures pos(reader) >= old(pos(reader))
 
 //@ func PeekExpectedBigInt
+//@   errors_propagated
 //@   props C07
 //@   requires readerOK(reader) && 0 <= sizeOfLength && sizeOfLength <= 15 && 0 <= offset
 //@   assigns E.uint8, X.stream
@@ -146,6 +152,7 @@ package asn1parser
 //@   ensures[C06] value: err == nil ==> (sizeOfLength == 0 ==> big(ret) == 0) && (sizeOfLength == 1 ==> big(ret) == at(reader, offset)) && (sizeOfLength == 2 ==> big(ret) == at(reader, offset) * 256 + at(reader, offset + 1)) && (sizeOfLength == 3 ==> big(ret) == at(reader, offset) * 65536 + at(reader, offset + 1) * 256 + at(reader, offset + 2)) && (sizeOfLength == 4 ==> big(ret) == at(reader, offset) * 16777216 + at(reader, offset + 1) * 65536 + at(reader, offset + 2) * 256 + at(reader, offset + 3))
 
 //@ func ReadLength
+//@   errors_propagated
 //@   props C07
 //@   requires readerOK(reader)
 //@   assigns E.uint8, X.stream, X.spos
@@ -154,6 +161,7 @@ package asn1parser
 //@   ensures pos(reader) >= old(pos(reader))
 
 //@ func PeekLength
+//@   errors_propagated
 //@   props C07
 //@   requires readerOK(reader) && 0 <= offset
 //@   assigns E.uint8, X.stream
@@ -161,6 +169,7 @@ package asn1parser
 //@   ensures[C06] header: err == nil ==> ret.LengthSize == derLenSize(reader, offset) && (ret.LengthSize <= 5 ==> ret.Length == derLen(reader, offset))
 
 //@ func ReadTagLength
+//@   errors_propagated
 //@   props C07
 //@   requires readerOK(reader)
 //@   assigns E.uint8, X.stream, X.spos
@@ -169,6 +178,7 @@ package asn1parser
 //@   ensures pos(reader) >= old(pos(reader))
 
 //@ func PeekTagLength
+//@   errors_propagated
 //@   props C07
 //@   requires readerOK(reader) && 0 <= offset 
 //@   assigns E.uint8, X.stream
@@ -248,6 +258,7 @@ package asn1parser
 //@   ensures pos(reader) >= old(pos(reader))
 
 //@ func ReadUtcTime
+//@   errors_propagated
 //@   props C07
 //@   requires readerOK(reader)
 //@   assigns E.uint8, X.stream, X.spos
@@ -268,6 +279,7 @@ package asn1parser
 //@   ensures pos(reader) >= old(pos(reader))
 
 //@ func ReadBigInt
+//@   errors_propagated
 //@   props C07
 //@   requires readerOK(reader)
 //@   assigns E.uint8, X.stream, X.spos
